@@ -733,6 +733,18 @@ def check_model_selection(chk) -> None:
         chk.error("model-selection", fi.where, "requested/default model cases not both found")
 
 
+def check_format_detection(chk) -> None:
+    """read_3d_structure (and the CLI tools) choose the reader by parser.is_cif: decided by evaluation on one file per class."""
+    from checks import c08e
+
+    try:
+        c08e.check_format_detection_eval(chk)
+    except AnalysisError:
+        raise
+    except Exception as ex:
+        chk.error("format-detection", f"src/rnapolis/{P}.py", f"evaluation of is_cif failed internally ({type(ex).__name__}: {str(ex)[:60]})")
+
+
 def check_group(chk) -> None:
     repo = chk.repo
     fi = repo.func(P, "group_atoms")
@@ -832,8 +844,9 @@ def run(chk) -> None:
     )
     chk.trusted = ["CPython ast", "mmcif IoAdapterPy tokenizer", "scipy KDTree", "wwPDB column table (spec/pdb_columns.json)"]
     chk.assumptions = ["well-formed files", "CPython iterates set(range(n)) in ascending order for the sizes involved (keeps file order; noted residual)"]
-    chk.robust |= {"int-parsing", "occupancy-wins", "optional-occupancy", "kdtree-index-space", "clash-same-model", "clash-loser", "clash-loop", "clash-distance", "pdb-columns", "null-markers", "late-binding", "model-selection"}
+    chk.robust |= {"int-parsing", "occupancy-wins", "optional-occupancy", "kdtree-index-space", "clash-same-model", "clash-loser", "clash-loop", "clash-distance", "pdb-columns", "null-markers", "late-binding", "model-selection", "format-detection"}
     check_model_selection(chk)
+    check_format_detection(chk)
     check_pdb_columns(chk)
     check_parse_pdb(chk)
     check_cif(chk)
